@@ -66,8 +66,11 @@ def generate(seed, tier):
             ops.append(op)
         elif m < 0.66:
             ops.append({"op": "save_reserved", "m": mi, "path": r.choice(PATHS), "key": r.choice(["rbm_am", "rbm_ph", "unitary_dict"])})
-        elif m < 0.84:
+        elif m < 0.80:
             ops.append({"op": "load", "m": mi, "path": r.choice(PATHS)})
+        elif m < 0.86:
+            # the location may also be a file object: save into / load from an in-memory file
+            ops.append({"op": "fobj_roundtrip", "m": mi, "dst": r.choice([0, 1, 2]), "md": r.randrange(0, 3)})
         else:
             ops.append({"op": "autoload", "path": r.choice(PATHS)})
     return {"property": PROP, "run_seed": seed, "sub": P.s64(r), "config": {"models": models, "md_slots": md_slots}, "ops": ops}
@@ -347,6 +350,34 @@ def execute(plan):
                 compared += 1
                 # independence: the loaded model must not share its unitaries with the file snapshot
                 trace.append(("load", rec["md_kind"]))
+            elif kind == "fobj_roundtrip":
+                import io as _io
+
+                st = models[op["m"]]
+                md = mds[op["md"]]
+                md_kind = cfg["md_slots"][op["md"]]
+                pre = snap(st)
+                md_pre = copy.deepcopy(md)
+                buf = _io.BytesIO()
+                try:
+                    st.save(buf, md)
+                except Exception as exc:  # noqa: BLE001
+                    run.lib_exception(exc, "save to a file object", md_kind=md_kind, type=pre["type"])
+                    continue
+                same_model(st, pre, f"model after save to a file object (op {j})", "11-side-effect-model", md_kind=md_kind)
+                if not deq(md, md_pre):
+                    run.violate("11-side-effect-metadata", f"save to a file object modified the caller's metadata (kind {md_kind})", md_kind=md_kind, type=pre["type"])
+                dst = models[op["dst"]]
+                if sig(cfg["models"][op["dst"]]) == sig(cfg["models"][op["m"]]):
+                    buf.seek(0)
+                    try:
+                        dst.load(buf)
+                    except Exception as exc:  # noqa: BLE001
+                        run.lib_exception(exc, "load from a file object")
+                        continue
+                    same_model(dst, pre, f"model after load from a file object (op {j})", "11-load", md_kind=md_kind)
+                    compared += 1
+                trace.append(("fobj", md_kind))
             elif kind == "autoload":
                 rec = files.get(op["path"])
                 if rec is None:
